@@ -35,3 +35,45 @@ def dead_store_to_loop_copy(fx, res, rule, scope=lambda f: f['name'].startswith(
                         'the element of the container is not updated (the loop variable should be a reference)' % (f['name'], v))
     rule['instances'] += n_loops
     return n_loops
+
+
+def loop_summary_overwritten(fx, res, rule, scope=lambda f: f['name'].startswith('opensmt::')):
+    """A Boolean local declared before a loop, plainly assigned (=) inside the loop from an expression over the loop's own variables, not read by the loop
+    condition and read after the loop is a summary of the iterations that only remembers the last one (it was meant to be accumulated with &&= / ||=, or the
+    loop was meant to stop at the first hit)."""
+    n_loops = 0
+    for f in fx.F.values():
+        if not f.get('body') or not scope(f):
+            continue
+        for blk in (b for b in walk(f['body'], f.get('lambdas', [])) if b.get('k') == 'seq'):
+            st = [x for x in blk['c'] if isinstance(x, dict)]
+            for i, s in enumerate(st):
+                if s.get('k') != 'loop':
+                    continue
+                n_loops += 1
+                before = {d['n'] for d in st[:i] if d.get('k') == 'decl' and (d.get('ct') or '').replace('const ', '').strip() == 'bool'}
+                if not before:
+                    continue
+                lv = set()
+                if s.get('var'):
+                    lv.add(s['var'])
+                for part in (s.get('init'), s.get('body')):
+                    if isinstance(part, dict):
+                        lv |= {d['n'] for d in walk(part) if d.get('k') == 'decl'}
+                cond_refs = {x.get('n') for x in walk(s.get('cond') or {}) if x.get('k') == 'ref'}
+                for n in walk(s['body']):
+                    if n.get('as') or not (n.get('k') == 'bin' and n.get('op') == '=' and isinstance(n.get('l'), dict) and n['l'].get('k') == 'ref' and n['l']['n'] in before):
+                        continue
+                    flag = n['l']['n']
+                    rhs = see_through(n['r'])
+                    if isinstance(rhs, dict) and rhs.get('k') == 'lit':
+                        continue                       # found = true; ... the usual search flag
+                    refs = {x.get('n') for x in walk(n['r']) if x.get('k') == 'ref'}
+                    if flag in refs or not (refs & lv) or flag in cond_refs:
+                        continue
+                    if not any(x.get('k') == 'ref' and x.get('n') == flag for t in st[i + 1:] for x in walk(t)):
+                        continue
+                    res.bad(rule, 'loop-summary-overwritten:%s:%s' % (f['name'].split('::')[-1], flag), fx.loc(f, n.get('ln')), '%s: the Boolean `%s` is assigned afresh in every iteration of the loop at line %s '
+                            'from the current element and read after the loop: it describes the last element only, not all of them' % (f['name'], flag, s.get('ln')))
+    rule['instances'] += n_loops
+    return n_loops
